@@ -14,8 +14,8 @@ from egverif import graphs, oracles, trav
 
 RULE = (
     "cases = (graph spec with a universe, rvfunc/refunc on or off); shape families and random multigraphs of all "
-    "two-ended link classes with self-loops, parallel/antiparallel/mixed edges, links leaving the universe and "
-    "vertices carrying unrelated attributes.  The returned Network is read back through get_nodes/get_node/get_edges "
+    "two-ended link classes with self-loops, parallel/antiparallel/mixed edges, links leaving the universe, links that "
+    "list a bystander vertex besides their two ends, and vertices carrying unrelated attributes.  The returned Network is read back through get_nodes/get_node/get_edges "
     "and compared with the graph (arrowed edge counts per ordered pair, arrow-less edges backed by a non-directed "
     "link, every internal link's node pair joined).  Non-trivial = at least one internal link; distinct = distinct "
     "(graph shape, universe, callbacks)."
@@ -39,7 +39,8 @@ def floors(ctx):
     q = ctx.tier == "quick"
     return {"evaluations": 800 if q else 8000, "edges_checked": 2000 if q else 20000, "internal_selfloops": 100,
             "graphs_with_parallel": 50, "graphs_with_mixed_kinds": 50, "links_leaving_universe": 100,
-            "empty_universe": 3, "undirected_merged_pairs": 20, "universes_over_256_members": 1, "cases_with_network_kwargs": 100}
+            "empty_universe": 3, "undirected_merged_pairs": 20, "universes_over_256_members": 1, "cases_with_network_kwargs": 100,
+            "links_listing_a_third_vertex": 100}
 
 
 NETWORK_KWARGS = [None, {"directed": True}, {"directed": False}, {"cdn_resources": "local", "directed": True, "notebook": False}]
@@ -86,7 +87,9 @@ def run_case(ctx, spec, with_funcs, nk=0):
             if id(l) in seen:
                 continue
             seen.add(id(l))
-            a, b = l.vertices
+            a, b = l.v1, l.v2
+            if len(l.vertices) > 2:
+                ctx.count("links_listing_a_third_vertex")
             if id(a) not in index or id(b) not in index:
                 ctx.count("links_leaving_universe")
                 continue
@@ -182,6 +185,11 @@ def run(ctx):
                 spec["uni"] = [i for i in range(len(spec["verts"])) if rng.random() < 0.8]
                 rng.shuffle(spec["uni"])
             spec["attrs"] = {str(i): {"color": "red", "weight": i * 1.5} for i in range(len(spec["verts"])) if i % 2}
+            if spec["edges"] and rng.random() < 0.3:
+                # bystanders: vertices that list a link (Link.add_vertex / Vertex.add_to_link) without being an end
+                spec["extra"] = [[rng.randrange(len(spec["edges"])), rng.randrange(len(spec["verts"]))]
+                                 for _ in range(rng.randint(1, 3))]
+                spec["extra"] = [[k_, i_] for k_, i_ in spec["extra"] if i_ not in spec["edges"][k_][1:3]]
         for f in graphs.features(spec):
             ctx.count("graphs_with_" + f)
         run_case(ctx, spec, ("dump" if n % 4 == 3 else True) if n % 2 else False,
@@ -190,7 +198,7 @@ def run(ctx):
         if k in (4, 150) and ctx.shard == 0:
             ctx.sample({"spec": spec, "callbacks": bool(n % 2)})
     ctx.assumptions += [
-        "only complete two-ended links; pyvis 0.3.2 read back through get_nodes/get_node/get_edges",
+        "two-ended links with both ends assigned, possibly listing further vertices that are not ends; pyvis 0.3.2 read back through get_nodes/get_node/get_edges",
         "pyvis merges an arrow-less edge into any existing edge of the same node pair, hence 'joined by at least one edge'",
     ]
 
